@@ -368,7 +368,10 @@ def dfs_unit(check, stats: Stats, *, groups, label, known_ids=(), budget=4000, d
         while stack:
             prefix = stack.pop()
             case = dict(case0, choices=prefix, drops_per_op=drops_per_op)
-            outcomes, info = run_schedule(case, list(prefix), drops_per_op)
+            import vrunner as _vr
+
+            with _vr.logging_mode(_vr.wants_logging(case)):
+                outcomes, info = run_schedule(case, list(prefix), drops_per_op)
             case["choices"] = list(info["taken"])
             res = judge(case, outcomes, info)
             stats.record(case, res, sample=(total % 97 == 0))
